@@ -60,7 +60,7 @@ var c11Args = []struct {
 	{"net.ErrClosed", net.ErrClosed},
 }
 
-var c11Closers = []string{"user", "read-loop-handler", "parent-context", "read-failure", "sender-write-failure", "holder-closeall", "shutdown-busy-sender"}
+var c11Closers = []string{"user", "read-loop-handler", "parent-context", "read-failure", "sender-write-failure", "holder-closeall", "shutdown-busy-sender", "close-before-serve"}
 
 var c11Entries = []string{"Write1", "Writev", "CtxWrite1", "CtxWritev", "Writer().Write", "ReadFrom", "Write"}
 
@@ -162,6 +162,23 @@ func runC11(c *core.Ctx) {
 			}
 		}
 	}
+	// writes that start while the effective Close is inside transport.Close (the transport is closed, Close has not returned)
+	wi := 0
+	for rep := 0; rep < c.Scale(2, 20); rep++ {
+		for _, md := range modes {
+			for _, arg := range c11Args[:3] {
+				wi++
+				if !c.Mine(wi) {
+					continue
+				}
+				id := fmt.Sprintf("close-window/%s/q%d/%s/r%d", md.m, md.q, arg.name, rep)
+				if !c.Case(id) {
+					continue
+				}
+				c11CloseWindow(c, id, md.m, md.q, arg.name, arg.err)
+			}
+		}
+	}
 	// concurrent variant
 	total := c.Scale(400, 6000)
 	for t := 0; t < total; t++ {
@@ -184,6 +201,10 @@ func c11CloseBy(rig *mon.Rig, closer string, arg error, cancel context.CancelFun
 	switch closer {
 	case "user":
 		rig.Ch.Close(arg)
+	case "close-before-serve":
+		// the connection is rejected while it is still being set up: Close on a channel that was never served
+		rig.Ch.Close(arg)
+		return true
 	case "shutdown-busy-sender":
 		// Bootstrap.Shutdown's order (the parent context ends, then Close is called) while the background sender is
 		// still busy with earlier payloads on a slow transport; Close is synchronous: it has returned when the call returns
@@ -223,6 +244,9 @@ func c11Grid(c *core.Ctx, id string, m mon.Mode, q int, closer, argName string, 
 		opts.Tr = mon.NewRecTransport()
 		opts.Tr.AcceptAfterClose = true
 		c.Count("grid_cases_with_lenient_transport", 1)
+	}
+	if closer == "close-before-serve" {
+		opts.NoServe = true
 	}
 	if closer == "shutdown-busy-sender" {
 		opts.Plan = []mon.Step{{At: "tV0", Occ: 0, Kind: mon.Sleep, D: 2 * time.Millisecond}}
@@ -315,6 +339,68 @@ func c11Grid(c *core.Ctx, id string, m mon.Mode, q int, closer, argName string, 
 	}
 	if c.WantSample() {
 		c.Sample(map[string]interface{}{"case": id, "calls": len(calls), "first_err": fmt.Sprint(calls[0].err), "ops": mon.OpString(ops)})
+	}
+}
+
+// c11CloseWindow holds the effective Close right after the transport has been closed (inside transport.Close, which may
+// take long: linger, TLS goodbye) and issues one call per low-level entry point in that window. The channel was closed
+// before these calls began, so none may report success for data that is then discarded.
+func c11CloseWindow(c *core.Ctx, id string, m mon.Mode, q int, argName string, arg error) {
+	plan := []mon.Step{{At: "tC1", Occ: 1, Kind: mon.Gate, Until: "probed", UntilCount: 1, Timeout: 5 * time.Second}}
+	rig := mon.NewRig(mon.RigOpts{Mode: m, Queue: q, QuietTail: true, Plan: plan})
+	defer rig.Dispose()
+	closed := make(chan struct{})
+	go func() { defer close(closed); rig.Ch.Close(arg) }()
+	if !rig.S.Await("tC1", 1, 5*time.Second) {
+		rig.S.Mark("probed")
+		c.Inconclusive(id, "Close did not reach transport.Close")
+		return
+	}
+	type call struct {
+		entry int
+		err   error
+	}
+	var calls []call
+	for e := 0; e < 6; e++ { // Channel.Write (entry 6) waits for a pending Close by design
+		e := e
+		done := make(chan error, 1)
+		go func() { done <- c11Call(rig.Ch, e, mon.Payload(e, 0, 64)) }()
+		select {
+		case err := <-done:
+			calls = append(calls, call{e, err})
+		case <-time.After(3 * time.Second):
+			rig.S.Mark("probed")
+			c.Inconclusive(id, "a write issued while Close was inside transport.Close did not return")
+			return
+		}
+	}
+	rig.S.Mark("probed")
+	select {
+	case <-closed:
+	case <-time.After(10 * time.Second):
+		c.Inconclusive(id, "watchdog: Close did not return")
+		return
+	}
+	rig.Ex.WaitOutstanding(0, 5*time.Second)
+	ops, _ := rig.T.Snapshot()
+	sent := map[int]bool{}
+	for _, o := range ops {
+		if (o.Kind == mon.OpWrite || o.Kind == mon.OpWritev) && !o.Rejected {
+			recs, _ := mon.ParseWire(o.Data)
+			for _, r := range recs {
+				sent[r.W] = true
+			}
+		}
+	}
+	c.Count("close_window_trials", 1)
+	for _, cl := range calls {
+		c.Count("calls_while_transport_close_in_progress", 1)
+		c.Sig("close-window", m, q, argName, cl.entry, cl.err == nil)
+		if cl.err == nil && !sent[cl.entry] {
+			c.Violation(fmt.Sprintf("C11:success-for-discarded-data-during-transport-close:%s:%s", c11Entries[cl.entry], modeClass(m)), id,
+				fmt.Sprintf("%s began after the channel's Close(%s) had closed the transport (Close was still inside transport.Close) and returned nil; its payload never reached the transport; mode=%s Q=%d", c11Entries[cl.entry], argName, m, q),
+				map[string]interface{}{"ops": mon.OpString(ops), "marks": rig.S.LogString(40)})
+		}
 	}
 }
 
